@@ -20,7 +20,7 @@ can be delayed between swapping the bucket and archiving it, and a concurrent `S
 that is why the property's first sentence is only an upper bound.  The upper bound and the equality after
 quiescence for the full stack are checked on the real code by monitors; they are NOT consequences of this file.
 
-**Guard.**  `NoWrap cfg` (`0 < interval ≤ 2^61`, `0 < window ≤ 2^61`) and `SchedOK t1 t2 s` (the constructor's
+**Guard.**  `WNoWrap cfg` (`0 < interval ≤ 2^61`, `0 < window ≤ 2^61`) and `SchedOK t1 t2 s` (the constructor's
 readings and every `tick` of the schedule within `±2^61`, fewer than `2^61` schedule entries): under it `wrap64` is
 the identity on every sum the model forms.  Outside the guard the model (like the code) wraps — finding F7.
 
@@ -51,7 +51,7 @@ abbrev runOf (cfg : Config) (t1 t2 : Int) (s : List (Tid × Act)) :=
 strictly before it: the reported count is exactly the number of successes / failures recorded so far in window `w`
 in buckets with timestamp `≥ t - window` — the triggering event excluded (its `recorded` entry comes after),
 everything older excluded, nothing else missing. -/
-theorem roll_exact (cfg : Config) (t1 t2 : Int) (s : List (Tid × Act)) (hcfg : NoWrap cfg) (hs : SchedOK t1 t2 s)
+theorem roll_exact (cfg : Config) (t1 t2 : Int) (s : List (Tid × Act)) (hcfg : WNoWrap cfg) (hs : SchedOK t1 t2 s)
     (pre post : List (Tid × Obs)) (tid : Tid) (w : Nat) (t sc fc : Int)
     (hlog : (runOf cfg t1 t2 s).2 = pre ++ (tid, Obs.rolled w t sc fc) :: post) :
     sc = recS w (t - cfg.window) pre ∧ fc = recF w (t - cfg.window) pre := by
@@ -61,7 +61,7 @@ theorem roll_exact (cfg : Config) (t1 t2 : Int) (s : List (Tid × Act)) (hcfg : 
 
 /-- **Roll ticks of one window increase by at least one interval** (consecutive rolls), so the new trim limit is
 above the previous one and the counting invariant applies to it -/
-theorem roll_ticks_increase (cfg : Config) (t1 t2 : Int) (s : List (Tid × Act)) (hcfg : NoWrap cfg)
+theorem roll_ticks_increase (cfg : Config) (t1 t2 : Int) (s : List (Tid × Act)) (hcfg : WNoWrap cfg)
     (hs : SchedOK t1 t2 s) (pre post : List (Tid × Obs)) (tid : Tid) (w : Nat) (t sc fc : Int)
     (hlog : (runOf cfg t1 t2 s).2 = pre ++ (tid, Obs.rolled w t sc fc) :: post) :
     ∀ t', lastRoll w pre = some t' → t' + cfg.interval ≤ t ∧ t' - cfg.window < t - cfg.window := by
@@ -126,7 +126,7 @@ theorem ticks_le_last {cfg : Config} (hi : 0 < cfg.interval) (w : Nat) :
 
 /-- **The roll ticks of one window strictly increase** (any two rolls, not only consecutive ones), hence so do the
 trim limits `t - window`: the last limit is the largest -/
-theorem roll_ticks_strictly_increase (cfg : Config) (t1 t2 : Int) (s : List (Tid × Act)) (hcfg : NoWrap cfg)
+theorem roll_ticks_strictly_increase (cfg : Config) (t1 t2 : Int) (s : List (Tid × Act)) (hcfg : WNoWrap cfg)
     (hs : SchedOK t1 t2 s) (a b c : List (Tid × Obs)) (x y : Tid) (w : Nat) (ta sa fa tb sb fb : Int)
     (hlog : (runOf cfg t1 t2 s).2 = a ++ (x, Obs.rolled w ta sa fa) :: (b ++ (y, Obs.rolled w tb sb fb) :: c)) :
     ta + cfg.interval ≤ tb := by
@@ -172,7 +172,7 @@ theorem rec_tf_le (w : Nat) (x : Int) (lg : List (Tid × Obs)) :
 in the window with stamp `≥ t - window`; successes and failures together by the number of `recorded` entries at
 all.  With `step_emits_at_most_one_recorded` and `report_records_exactly_once` (each `recorded` entry belongs to
 exactly one report operation, each report contributes exactly one) no event is invented or counted twice. -/
-theorem no_invention (cfg : Config) (t1 t2 : Int) (s : List (Tid × Act)) (hcfg : NoWrap cfg) (hs : SchedOK t1 t2 s)
+theorem no_invention (cfg : Config) (t1 t2 : Int) (s : List (Tid × Act)) (hcfg : WNoWrap cfg) (hs : SchedOK t1 t2 s)
     (pre post : List (Tid × Obs)) (tid : Tid) (w : Nat) (t sc fc : Int)
     (hlog : (runOf cfg t1 t2 s).2 = pre ++ (tid, Obs.rolled w t sc fc) :: post) :
     0 ≤ sc ∧ sc ≤ recS w (t - cfg.window) pre ∧ 0 ≤ fc ∧ fc ≤ recF w (t - cfg.window) pre ∧
@@ -210,7 +210,7 @@ theorem report_records_rest {cfg : Config} {l : L} {obs : List Obs} (hl : l.isB0
 every moment): for every limit `x` at or above the window's last trim limit, the buckets of the window (reservoir
 and current) with timestamp `≥ x` hold exactly the `recorded` events with stamp `≥ x` — nothing recorded is missing,
 nothing is there twice. -/
-theorem window_holds_recorded (cfg : Config) (t1 t2 : Int) (s : List (Tid × Act)) (hcfg : NoWrap cfg)
+theorem window_holds_recorded (cfg : Config) (t1 t2 : Int) (s : List (Tid × Act)) (hcfg : WNoWrap cfg)
     (hs : SchedOK t1 t2 s) :
     let g := (runOf cfg t1 t2 s).1.g
     let lg := (runOf cfg t1 t2 s).2
@@ -224,7 +224,7 @@ theorem window_holds_recorded (cfg : Config) (t1 t2 : Int) (s : List (Tid × Act
   exact ⟨hG.count w hw true x hx', hG.count w hw false x hx'⟩
 
 /-- before the first roll of a window nothing was trimmed: its buckets hold every recorded event -/
-theorem window_holds_all_before_first_roll (cfg : Config) (t1 t2 : Int) (s : List (Tid × Act)) (hcfg : NoWrap cfg)
+theorem window_holds_all_before_first_roll (cfg : Config) (t1 t2 : Int) (s : List (Tid × Act)) (hcfg : WNoWrap cfg)
     (hs : SchedOK t1 t2 s) :
     let g := (runOf cfg t1 t2 s).1.g
     let lg := (runOf cfg t1 t2 s).2
@@ -235,7 +235,7 @@ theorem window_holds_all_before_first_roll (cfg : Config) (t1 t2 : Int) (s : Lis
 
 /-- **Structure**, guarded part: counters are non-negative, timestamps are guarded readings, the current bucket's
 timestamp is the tick of the window's last roll -/
-theorem buckets_wellformed (cfg : Config) (t1 t2 : Int) (s : List (Tid × Act)) (hcfg : NoWrap cfg)
+theorem buckets_wellformed (cfg : Config) (t1 t2 : Int) (s : List (Tid × Act)) (hcfg : WNoWrap cfg)
     (hs : SchedOK t1 t2 s) :
     let g := (runOf cfg t1 t2 s).1.g
     let lg := (runOf cfg t1 t2 s).2
@@ -249,7 +249,7 @@ theorem buckets_wellformed (cfg : Config) (t1 t2 : Int) (s : List (Tid × Act)) 
 
 /-- **A recorded event is counted by every later roll of its window whose limit does not exceed its stamp**, whoever
 recorded it -/
-theorem recorded_counted_by_later_roll (cfg : Config) (t1 t2 : Int) (s : List (Tid × Act)) (hcfg : NoWrap cfg)
+theorem recorded_counted_by_later_roll (cfg : Config) (t1 t2 : Int) (s : List (Tid × Act)) (hcfg : WNoWrap cfg)
     (hs : SchedOK t1 t2 s) (pre mid post : List (Tid × Obs)) (tid tid' : Tid) (w : Nat) (stamp : Int) (k : Bool)
     (t sc fc : Int)
     (hlog : (runOf cfg t1 t2 s).2 = pre ++ (tid, Obs.recorded w stamp k) :: (mid ++ (tid', Obs.rolled w t sc fc) :: post))
@@ -276,7 +276,7 @@ reporter that loses the CAS at `w2`, or that read a tick before the current buck
 `recorded w (its own tick) succ` and leaves its fresh bucket in the reservoir (`inWin`); by this theorem (which does
 not care who emitted the entry) every later roll of the window whose limit is `≤` that stamp counts it, exactly
 once. -/
-theorem losers_and_backsteps_counted (cfg : Config) (t1 t2 : Int) (s : List (Tid × Act)) (hcfg : NoWrap cfg)
+theorem losers_and_backsteps_counted (cfg : Config) (t1 t2 : Int) (s : List (Tid × Act)) (hcfg : WNoWrap cfg)
     (hs : SchedOK t1 t2 s) (pre mid post : List (Tid × Obs)) (tid tid' : Tid) (w : Nat) (stamp : Int) (k : Bool)
     (t sc fc : Int)
     (hlog : (runOf cfg t1 t2 s).2 = pre ++ (tid, Obs.recorded w stamp k) :: (mid ++ (tid', Obs.rolled w t sc fc) :: post))
@@ -287,7 +287,7 @@ theorem losers_and_backsteps_counted (cfg : Config) (t1 t2 : Int) (s : List (Tid
 
 /-- a reporter in a guarded run that is about to lose the CAS (`w2`, the window's current bucket is no longer the
 one it loaded) records its event with its own tick as stamp, in a fresh bucket that sits in the reservoir -/
-theorem loser_recorded (cfg : Config) (t1 t2 : Int) (s : List (Tid × Act)) (hcfg : NoWrap cfg) (hs : SchedOK t1 t2 s)
+theorem loser_recorded (cfg : Config) (t1 t2 : Int) (s : List (Tid × Act)) (hcfg : WNoWrap cfg) (hs : SchedOK t1 t2 s)
     (tid : Tid) (c : Call) (o w : Nat) (tt : Int) (b : Nat) (g' : CG) (l' : L) (obs : List Obs) :
     let g := (runOf cfg t1 t2 s).1.g
     (runOf cfg t1 t2 s).1.l tid = .w2 c o w tt b → (g.win w).cur ≠ b →
@@ -303,7 +303,7 @@ theorem loser_recorded (cfg : Config) (t1 t2 : Int) (s : List (Tid × Act)) (hcf
 
 /-- a reporter in a guarded run whose tick is before the current bucket's timestamp (the ticker stepped back)
 records its event with its own tick as stamp, in a fresh bucket that sits in the reservoir -/
-theorem backstep_recorded (cfg : Config) (t1 t2 : Int) (s : List (Tid × Act)) (hcfg : NoWrap cfg)
+theorem backstep_recorded (cfg : Config) (t1 t2 : Int) (s : List (Tid × Act)) (hcfg : WNoWrap cfg)
     (hs : SchedOK t1 t2 s) (tid : Tid) (c : Call) (o w : Nat) (tt : Int) (g' : CG) (l' : L) (obs : List Obs) :
     let g := (runOf cfg t1 t2 s).1.g
     (runOf cfg t1 t2 s).1.l tid = .w1 c o w tt → tt < (g.bucket (g.win w).cur).ts →
@@ -347,7 +347,7 @@ theorem bucket_at_most_once_run (cfg : Config) (t1 t2 : Int) (s : List (Tid × A
 /-- **The snapshot is the roll's count.**  A thread about to store a snapshot (`w3`) carries the count of the last
 `rolled` entry it emitted (the roll of the same operation), and its next step stores exactly that count in the
 window's `snap`. -/
-theorem snapshot_is_last_roll (cfg : Config) (t1 t2 : Int) (s : List (Tid × Act)) (hcfg : NoWrap cfg)
+theorem snapshot_is_last_roll (cfg : Config) (t1 t2 : Int) (s : List (Tid × Act)) (hcfg : WNoWrap cfg)
     (hs : SchedOK t1 t2 s) (tid : Tid) (c : Call) (o w : Nat) (e : Int × Int)
     (hl : (runOf cfg t1 t2 s).1.l tid = .w3 c o w e) :
     lastRollBy tid (runOf cfg t1 t2 s).2 = some (w, e.1, e.2) ∧
@@ -408,7 +408,7 @@ theorem tickOK_of_b {a : Act} (h : tickOKb a = true) : TickOK a := by
   cases a <;> simp [tickOKb, TickOK] at h ⊢
   exact h
 
-theorem noWrap_ex (window : Int) (h : 0 < window ∧ window ≤ 2^61) : NoWrap (cfgEx window) :=
+theorem noWrap_ex (window : Int) (h : 0 < window ∧ window ≤ 2^61) : WNoWrap (cfgEx window) :=
   ⟨by show (0 : Int) < 10; decide, by show (10 : Int) ≤ 2^61; decide, h.1, h.2⟩
 
 theorem schedOK_ex : SchedOK 0 0 schedEx :=
